@@ -231,6 +231,7 @@ type seqCtx struct {
 	rich                        bool
 	commits, rollbacks, reopens int
 	depthSeen                   int
+	maxDepth                    int // nesting limit of this sequence (deep sequences go past depth 10: two-digit depth in the stored paths)
 }
 
 var (
@@ -1243,6 +1244,30 @@ func (c *seqCtx) opDeleteTop() {
 func (c *seqCtx) opNewBucket(h *handle, n *node) {
 	name := c.pickChildName(n, h.path, 0)
 	nh := c.newBucketNamed(h, n, name)
+	// deep-chain scenario (deep sequences only): keep nesting below the new bucket, one key per level, down to depth
+	// 11-14; the random operations that follow read, list, delete and re-create along the chain
+	if nh != nil && !c.failed && c.maxDepth > maxDepth && c.rng.Chance(1, 2) {
+		cur, cn := nh, n.sub[name]
+		target := c.maxDepth - c.rng.Intn(3)
+		for len(cur.path) < target && cn != nil && !c.failed {
+			cname := c.pick(nestedValid)
+			if cn.sub[cname] != nil {
+				break
+			}
+			val := mkVal(c.rng.Range(1, 5), byte(len(cur.path)))
+			c.putKV(cur, cn, []byte("lvl"), val, fmt.Sprintf("v(%d,0x%02x)", len(val), val[0]))
+			if c.failed {
+				return
+			}
+			next := c.newBucketNamed(cur, cn, cname)
+			if next == nil {
+				break
+			}
+			cur, cn = next, cn.sub[cname]
+		}
+		c.count("deep_chain_scenarios")
+		return
+	}
 	// twin scenario: a sibling whose name extends the new bucket's name, both holding the same key
 	if nh == nil || c.failed || len(name) > 16 || !c.rng.Chance(1, 3) {
 		return
@@ -1613,7 +1638,7 @@ func (c *seqCtx) writeStep() {
 	}
 	switch k {
 	case kNewBucket:
-		if len(h.path) >= maxDepth {
+		if len(h.path) >= c.maxDepth {
 			c.opPut(h, n)
 			return
 		}
@@ -1901,7 +1926,11 @@ func runGroup(run *vh.Run, root *vh.Rng, g int, cases []int, nOps int) {
 			}
 			st = &store{dir: dir, d: d, committed: newState()}
 		}
-		c := &seqCtx{run: run, ci: ci, j: ci % perStore, rng: root.Derive("seq", ci), st: st, maxOps: nOps,
+		md := maxDepth
+		if root.Derive("deep", ci).Chance(1, 6) {
+			md = 14
+		}
+		c := &seqCtx{run: run, ci: ci, j: ci % perStore, rng: root.Derive("seq", ci), st: st, maxOps: nOps, maxDepth: md,
 			cnt: map[string]int64{}, recentDel: map[string][]string{}}
 		c.initNames()
 		c.runSeq()
